@@ -49,6 +49,13 @@ impl Evidence {
         }
     }
 
+    /// development aid (PVH_CLASSES=1): the class counts of this run on stderr
+    pub fn print_classes(&self) {
+        for (k, v) in self.classes.iter() {
+            eprintln!("  class {:<70} {}", k, v);
+        }
+    }
+
     pub fn absorb_part(&mut self, part: &str, m: &Merged) {
         self.evaluations += m.evals;
         self.cases += m.cases;
